@@ -2,6 +2,8 @@
 
 package common
 
+import "sync"
+
 // Engine-side replacements (redirect table) for assembly-backed std leaves. The engine maps a call to
 // function F to vstub_<sanitised name of F> when such a function exists in the harness package; the native
 // build never calls them.
@@ -133,3 +135,12 @@ func vstub_errors_Is(err, target error) bool {
 	}
 	return false
 }
+
+// sync.Pool without per-P caches: Get allocates through New, Put drops.
+func vstub_sync_Pool_Get(p *sync.Pool) any {
+	if p.New != nil {
+		return p.New()
+	}
+	return nil
+}
+func vstub_sync_Pool_Put(p *sync.Pool, x any) {}
